@@ -83,8 +83,10 @@ pub enum L {
     ServiceHeader { id: usize, text: Option<String> },
     /// the traceparent seen before a carried hop and as the first thing on the new thread
     HopEntry { id: usize, before: Tp, inside: Tp },
-    /// the hop body was not run because the carried context did not arrive
+    /// the hop body was not run because the carried context did not arrive (only with a listed known finding)
     HopSkipped { id: usize },
+    /// `Traceparent::current()` on a fresh poll thread right after a migrated poll returned
+    PollThreadEnd { tp: Tp },
 }
 
 pub type Log = Arc<Mutex<Vec<L>>>;
